@@ -1021,6 +1021,7 @@ class SSHConnection(SSHPacketHandler, asyncio.Protocol):
 
         self._auth: Optional[Auth] = None
         self._auth_in_progress = False
+        self._auth_begun = False
         self._auth_complete = False
         self._auth_final = False
         self._auth_methods = [b'none']
@@ -2615,10 +2616,13 @@ class SSHConnection(SSHPacketHandler, asyncio.Protocol):
                 self._auth.cancel()
                 self._auth = None
 
-            if username != self._username:
+            # The first request always begins auth for its user, also
+            # when it names the user this connection starts out with
+            if username != self._username or not self._auth_begun:
                 self.logger.info('Beginning auth for user %s', username)
 
                 self._username = username
+                self._auth_begun = True
                 begin_auth = True
             else:
                 begin_auth = False
